@@ -4,6 +4,4 @@ func registerDBModels() {}
 
 func (x *Exec) initGhost(st *State) {}
 
-func (w *World) lemmaObligations(prop string) ([]*Obligation, []string) { return nil, nil }
 
-func tryReplay(w *World, o *Obligation, cfg RunConfig) (bool, string) { return false, "" }
